@@ -9,9 +9,9 @@ ID = 'C13'
 # ---------------------------------------------------------------------------------------------
 # wire format (see coq/Extr/C13.v)
 PLAIN, ORDERED, DEFAULT = 0, 1, 2
-O_SET, O_GET, O_DEL, O_IN, O_GETD, O_POP, O_POPITEM, O_SETDEFAULT, O_UPDATE, O_CLEAR, O_LOWER = range(11)
+O_SET, O_GET, O_DEL, O_IN, O_GETD, O_POP, O_POPITEM, O_SETDEFAULT, O_UPDATE, O_CLEAR, O_LOWER, O_MUTATE = range(12)
 S_ADD, S_DISCARD, S_REMOVE, S_IN, S_CANON, S_LOWER, S_CLEAR, S_IOR, S_ISUB, S_POP = range(10)
-OPNAMES = ['setitem', 'getitem', 'delitem', 'contains', 'get', 'pop', 'popitem', 'setdefault', 'update', 'clear', 'lower']
+OPNAMES = ['setitem', 'getitem', 'delitem', 'contains', 'get', 'pop', 'popitem', 'setdefault', 'update', 'clear', 'lower', 'mutate']
 SOPNAMES = ['add', 'discard', 'remove', 'contains', 'get_canonical_key', 'lower', 'clear', 'ior', 'isub', 'pop']
 M_OP, M_LOWER, M_COPY, M_COPYITEMS, M_UPDATEFROM, M_NEW, M_NEWDEFAULT = range(7)
 SM_OP, SM_LOWER, SM_COPY, SM_IORFROM, SM_ISUBFROM, SM_NEW = range(6)
@@ -22,15 +22,44 @@ CLSNAMES = ['CaseInsensitiveDict', 'OrderedCaseInsensitiveDict', 'CaseInsensitiv
 # called with the real objects, so that falsy values and None (as values and as EXPLICIT defaults) are exercised.
 # On the wire "no default given" is [] and "default None" is [NONE].
 VBASE = -(10 ** 15)
-NONE, FALSE, EMPTYSTR, EMPTYLIST, VUNKNOWN = VBASE - 1, VBASE - 2, VBASE - 3, VBASE - 4, VBASE - 99
+NONE, FALSE, EMPTYSTR, VUNKNOWN = VBASE - 1, VBASE - 2, VBASE - 3, VBASE - 99
+# MUTABLE values: a sequence [d1, ..., dn] of digits 1..9 is the integer SEQ - (d1...dn as a decimal number)
+# (Model/CIDictStr.seq_base / mut_append).  Which Python object carries the sequence is the case's `kind`:
+# 0 list (append), 1 dict (v[len(v)] = x), 2 set (v.add((len(v), x))), 3 an object with identity (box.items.append).
+SEQ = -2 * 10 ** 15
+EMPTYLIST = SEQ
 FALSY = [NONE, 0, EMPTYSTR, EMPTYLIST, FALSE]
-VNAMES = {NONE: 'None', FALSE: 'False', EMPTYSTR: "''", EMPTYLIST: '[]'}
+VNAMES = {NONE: 'None', FALSE: 'False', EMPTYSTR: "''"}
+KINDNAMES = ['list', 'dict', 'set', 'Box']
+_KIND = [0]
+
+class Box(object):
+    """a mutable default with identity (no __eq__): content in .items"""
+    def __init__(self):
+        self.items = []
+    def __repr__(self):
+        return repr(self.items)
+
+def seq_digits(code):
+    n = SEQ - code
+    return [int(ch) for ch in str(n)] if n > 0 else []
+
+def seq_code(digits):
+    if any((not isinstance(d, int)) or isinstance(d, bool) or d < 1 or d > 9 for d in digits) or len(digits) > 15:
+        return VUNKNOWN
+    return SEQ - (int(''.join(map(str, digits))) if digits else 0)
 
 def vdec(code):
     if code == NONE: return None
     if code == FALSE: return False
     if code == EMPTYSTR: return ''
-    if code == EMPTYLIST: return []
+    if code <= SEQ:
+        ds = seq_digits(code)
+        k = _KIND[0]
+        if k == 0: return list(ds)
+        if k == 1: return dict(enumerate(ds))
+        if k == 2: return set(enumerate(ds))
+        b = Box(); b.items = list(ds); return b
     return code
 
 def vcode(x):
@@ -38,11 +67,27 @@ def vcode(x):
     if x is False: return FALSE
     if isinstance(x, bool): return VUNKNOWN
     if isinstance(x, int): return x
-    if x == '' and isinstance(x, str): return EMPTYSTR
-    if x == [] and isinstance(x, list): return EMPTYLIST
+    if isinstance(x, str): return EMPTYSTR if x == '' else VUNKNOWN
+    try:
+        if isinstance(x, list): return seq_code(x)
+        if isinstance(x, dict): return seq_code([x[i] for i in range(len(x))])
+        if isinstance(x, (set, frozenset)): return seq_code([v for _, v in sorted(x)])
+        if isinstance(x, Box): return seq_code(x.items)
+    except Exception:
+        pass
     return VUNKNOWN
 
+def mutate(v, x):
+    """mutate the object in place; immutable objects raise like `None.append`"""
+    if isinstance(v, list): v.append(x)
+    elif isinstance(v, dict): v[len(v)] = x
+    elif isinstance(v, set): v.add((len(v), x))
+    elif isinstance(v, Box): v.items.append(x)
+    else: raise AttributeError('%s object has no attribute append' % type(v).__name__)
+
 def vshow(code):
+    if code <= SEQ:
+        return '<%s %r>' % (KINDNAMES[_KIND[0]] if 0 <= _KIND[0] < 4 else 'seq', seq_digits(code))
     return VNAMES.get(code, repr(code))
 
 def enc_res(t, x):
@@ -142,19 +187,22 @@ def apply_op(c, op):
         r = call(c.update, pairs)
     elif t == O_CLEAR:
         r = call(c.clear)
+    elif t == O_MUTATE:
+        r = call(lambda: mutate(c[k], op[2]))
     else:
         r = call(c.lower)
         if r[0] == 0:
             c = r[1]
             r = [0, None]
     if r[0] == 0:
-        r = [0, enc_res(t if t != O_LOWER else O_CLEAR, r[1])]
+        r = [0, enc_res(t if t not in (O_LOWER, O_MUTATE) else O_CLEAR, r[1])]
     return c, r
 
 
 def impl_dict(arg):
     CLS = _classes()
-    cls, dflt, init, ops, probes, obs_from = arg
+    cls, dflt, init, ops, probes, obs_from = arg[:6]
+    _KIND[0] = arg[6] if len(arg) > 6 else 0
     probes = [S(p) for p in probes]
     try:
         if cls == DEFAULT:
@@ -174,6 +222,7 @@ def impl_multi(arg):
     """several live containers; every object ever created stays referenced (so sharing between them stays visible)"""
     CLS = _classes()
     ops, probes, obs_from = arg
+    _KIND[0] = 0
     probes = [S(p) for p in probes]
     cs = []
     keep = []
@@ -370,7 +419,7 @@ def model_arg(fn, arg):
       implementation (and checks that it is a possible one)."""
     tbl = lower_table(case_keys(fn, arg))
     if fn == 1:
-        return [arg[0], arg[1], arg[2], [model_op(o) for o in arg[3]], arg[4], arg[5], tbl]
+        return [arg[0], arg[1], arg[2], [model_op(o) for o in arg[3]], arg[4], arg[5], tbl]     # arg[6] (the kind of mutable objects) is the harness's business
     if fn == 3:
         return [[[M_OP, o[1], model_op(o[2])] if o[0] == M_OP else o for o in arg[0]], arg[1], arg[2], tbl]
     if fn == 2:
@@ -404,7 +453,7 @@ def model_arg(fn, arg):
 OPS_SCHEMA = ('L', 'X')
 FUNCS = {
     1: ('pybtex.utils.CaseInsensitiveDict/OrderedCaseInsensitiveDict/CaseInsensitiveDefaultDict (history)', impl_dict,
-        ('T', 'X', 'I', ('L', ('T', 'S', 'I')), OPS_SCHEMA, ('L', 'S'), 'N')),
+        ('T', 'X', 'I', ('L', ('T', 'S', 'I')), OPS_SCHEMA, ('L', 'S'), 'N', 'X')),
     2: ('pybtex.utils.CaseInsensitiveSet (history)', impl_set, ('T', ('L', 'S'), OPS_SCHEMA, ('L', 'S'), 'N')),
     3: ('pybtex.utils mapping classes, several live containers (history)', impl_multi, ('T', ('L', 'X'), ('L', 'S'), 'N')),
     4: ('pybtex.utils.CaseInsensitiveSet, several live sets (history)', impl_multiset, ('T', ('L', 'X'), ('L', 'S'), 'N')),
@@ -543,13 +592,24 @@ def ref_apply(ref, cls, dflt, op, r, name):
         ref.rows = []; exp = [0, [0]]
     elif t == O_LOWER:
         ref.lower(); exp = [0, [0]]
+    elif t == O_MUTATE:
+        # the object a lookup yields is mutated in place: a stored value changes, a yielded default is a fresh one
+        v = row[2] if row else (dflt if cls == DEFAULT else None)
+        if v is None:
+            exp = [2]
+        elif v > SEQ:
+            exp = [2]           # not a mutable object
+        else:
+            exp = [0, [0]]
+            if row:
+                row[2] = SEQ - ((SEQ - v) * 10 + op[2])
     if r != exp:
         return '%s: result %r, expected %r' % (name, r, exp)
     return None
 
 
 def oracle_dict(arg, out):
-    cls, dflt, init, ops, probes, obs_from = arg
+    cls, dflt, init, ops, probes, obs_from = arg[:6]
     probes = [S(p) for p in probes]
     if len(out) != len(ops) + 1:
         return 'constructor raised' if len(out) == 1 and out[0][0] == [2] else 'history truncated'
@@ -774,6 +834,8 @@ def describe_op(op):
     a = [repr(S(op[1]))] if len(op) > 1 else []
     if t in (O_SET, O_SETDEFAULT):
         a.append(vshow(op[2]))
+    if t == O_MUTATE:
+        return 'mutate c[%r]: append %r' % (S(op[1]), op[2])
     if t in (O_GETD, O_POP) and op[2]:
         a.append(vshow(op[2][0]))
     return '%s(%s)' % (OPNAMES[t], ', '.join(a))
@@ -824,7 +886,8 @@ def describe(fn, arg):
     if fn == 4:
         return {'ops': [describe_smop(o) for o in arg[0]], 'probes': [S(p) for p in arg[1]]}
     if fn == 1:
-        return {'class': CLSNAMES[arg[0]], 'default': arg[1], 'init': [(S(k), v) for k, v in arg[2]],
+        _KIND[0] = arg[6] if len(arg) > 6 and 0 <= arg[6] < 4 else 0
+        return {'class': CLSNAMES[arg[0]], 'default': vshow(arg[1]), 'mutable values are': KINDNAMES[arg[6]] if len(arg) > 6 and 0 <= arg[6] < 4 else 'list', 'init': [(S(k), v) for k, v in arg[2]],
                 'ops': [describe_op(o) for o in arg[3]], 'probes': [S(p) for p in arg[4]]}
     return {'class': 'CaseInsensitiveSet', 'init': [S(k) for k in arg[0]], 'ops': [describe_sop(o) for o in arg[1]],
             'probes': [S(p) for p in arg[2]]}
@@ -968,7 +1031,19 @@ def random_dict_history(rng, maxlen):
     init = [] if cls == DEFAULT else [[rich_key(rng, pool), rich_val(rng)] for _ in range(rng.choice([0, 0, 1, 2, 4]))]
     ops = [random_op(rng, pool) for _ in range(rng.randint(1, maxlen))]
     probes = [rich_key(rng, pool) for _ in range(4)] + ['zz']
-    return [cls, rng.choice([0, 0, 5, NONE, EMPTYLIST]), init, ops, probes, 0]
+    dflt = rng.choice([0, 0, 5, NONE, EMPTYLIST])
+    kind = rng.randrange(4)
+    if rng.random() < 0.4:
+        # mutable values: a mutable factory, stored empty sequences, and "mutate the object the lookup returns"
+        dflt = rng.choice([EMPTYLIST, EMPTYLIST, 0])
+        nmut = 0
+        for i in range(len(ops)):
+            r = rng.random()
+            if r < 0.25 and nmut < 10:
+                ops[i] = [O_MUTATE, rich_key(rng, pool), rng.randint(1, 9)]; nmut += 1
+            elif r < 0.4 and ops[i][0] in (O_SET, O_SETDEFAULT):
+                ops[i] = [ops[i][0], ops[i][1], EMPTYLIST]
+    return [cls, dflt, init, ops, probes, 0, kind]
 
 def random_set_history(rng, maxlen):
     pool = []
@@ -999,6 +1074,8 @@ PINNED = [
     ('pinned', 1, [ORDERED, 0, [['Ab', 1], ['b', 2]], [[O_LOWER], [O_SET, 'AB', 3]], ['ab', 'b'], 0]),
     ('pinned', 1, [PLAIN, 0, [], [[O_UPDATE, [['a', 1], ['B', 2]]], [O_SETDEFAULT, 'A', 5], [O_SETDEFAULT, 'c', 5], [O_UPDATE, [['C', 6], ['b', 7]]]], ['a', 'b', 'c'], 0]),
     # several live containers: lower() / construction from a container must not share state with the original
+    ('pinned', 1, [DEFAULT, EMPTYLIST, [], [[O_MUTATE, 'a', 1], [O_GET, 'b'], [O_SET, 'A', EMPTYLIST], [O_MUTATE, 'a', 7], [O_MUTATE, 'A', 3], [O_GET, 'zz'], [O_DEL, 'a'], [O_GET, 'a']], ['a', 'b', 'zz'], 0, 0]),
+    ('pinned', 1, [DEFAULT, EMPTYLIST, [], [[O_MUTATE, 'a', 1], [O_GET, 'b']], ['a', 'b'], 0, 3]),
     ('pinned', 3, [[[M_NEW, ORDERED, [['Ab', 1], ['c', 2]]], [M_LOWER, 0], [M_OP, 1, [O_SET, 'AB', 3]], [M_OP, 0, [O_DEL, 'c']], [M_OP, 1, [O_SET, 'd', 4]], [M_OP, 0, [O_CLEAR]]], ['ab', 'c', 'd'], 0]),
     ('pinned', 3, [[[M_NEW, PLAIN, [['Ab', 1]]], [M_COPY, 0, ORDERED], [M_COPYITEMS, 1, PLAIN], [M_OP, 0, [O_SET, 'ab', 5]], [M_OP, 2, [O_DEL, 'AB']], [M_NEWDEFAULT, 0], [M_UPDATEFROM, 3, 0], [M_OP, 3, [O_LOWER]], [M_OP, 0, [O_POPITEM]]], ['ab', 'x'], 0]),
     ('pinned', 4, [[[SM_NEW, ['Ab', 'c']], [SM_LOWER, 0], [SM_COPY, 0], [SM_OP, 1, [S_ADD, 'D']], [SM_OP, 0, [S_DISCARD, 'C']], [SM_NEW, ['X']], [SM_IORFROM, 3, 0], [SM_OP, 0, [S_CLEAR]], [SM_ISUBFROM, 1, 3]], ['ab', 'c', 'd', 'x'], 0]),
@@ -1115,6 +1192,19 @@ def gen(tier, rng):
                                  [M_OP, 0, [O_DEL, 'k']], [M_NEWDEFAULT, NONE], [M_UPDATEFROM, 3, 2], [M_OP, 3, [O_POP, 'ς', [NONE]]], [M_OP, 3, [O_POP, 'σ', [NONE]]]], uprobes, 0])
     yield ('unicode_multi', 4, [[[SM_NEW, ['Maß', 'Σ', 'K']], [SM_LOWER, 0], [SM_COPY, 0], [SM_OP, 1, [S_ADD, 'MAß']], [SM_OP, 0, [S_DISCARD, 'k']],
                                  [SM_NEW, ['ς']], [SM_IORFROM, 3, 0], [SM_OP, 3, [S_CANON, 'σ']]], uprobes, 0])
+    # (i) mutable values and mutable default factories (list, dict, set, an object with identity): the object a lookup
+    #     returns is mutated in place -- a stored value changes, a default yielded for an absent key must be a fresh one
+    mkeys = ['a', 'A', 'b', 'z']
+    for kind in range(4):
+        sts = list(states([('a', 'A'), ('b', 'B')], [EMPTYLIST]))
+        for st in (sts if kind == 0 else sts[:5]):
+            path = [[O_SET, k, v] for k, v in st]
+            for cls, dfl in ((DEFAULT, EMPTYLIST), (DEFAULT, 0), (ORDERED, 0)):
+                for k in mkeys:
+                    for k2 in ('a', 'B', 'z', 'y'):
+                        for op2 in ([O_MUTATE, k2, 2], [O_GET, k2], [O_DEL, k], [O_POP, k2, []], [O_SETDEFAULT, k2, EMPTYLIST]):
+                            yield ('mutable_values', 1, [cls, dfl, [], path + [[O_MUTATE, k, 1], op2, [O_MUTATE, 'y', 3], [O_GET, 'x']],
+                                                         ['a', 'b', 'z', 'y', 'x'], len(path), kind])
     # (e) random long histories with richer keys
     for _ in range(1500 if quick else 4000):
         yield ('random_histories', 1, random_dict_history(rng, 60))
